@@ -52,6 +52,10 @@ fn main() {
             let tier = if args[5] == "thorough" { Tier::Thorough } else { Tier::Quick };
             dispatch(id.as_str(), &Action::Probe(n(2), n(3), n(4), tier, args[0] == "scenario-at"))
         }
+        "probe-json" => {
+            let id = args[1].clone();
+            dispatch(id.as_str(), &Action::ProbeJson(Path::new(&args[2])))
+        }
         "survey" => {
             let id = args[1].clone();
             let n: u64 = args.get(2).and_then(|s| s.parse().ok()).unwrap_or(2000);
@@ -216,6 +220,42 @@ fn supervise(id: &str, args: &[String], seed: u64, tier: Tier) -> i32 {
         let path = rdir.join(format!("{id}-seed{seed}-i{idx}-abort.json"));
         if std::fs::write(&path, serde_json::to_string_pretty(&file).unwrap()).is_err() {
             eprintln!("harness error: cannot write {}", path.display());
+            return 2;
+        }
+        println!("violation class=ProcessAborted : {message}");
+        println!("VIOLATION property={id} replay={}", path.display());
+        return 1;
+    }
+    // ... or the process died while a violation was being minimised: the candidates noted next to the beacon
+    let mut k = 0;
+    loop {
+        let f = std::path::PathBuf::from(format!("{}.shrink{k}", beacon.display()));
+        k += 1;
+        if k > core::BEACON_SLOTS {
+            break;
+        }
+        let Ok(text) = std::fs::read_to_string(&f) else { continue };
+        let _ = std::fs::remove_file(&f);
+        let tmp = dir.join(format!("probe-{}-{}.json", id, std::process::id()));
+        if std::fs::write(&tmp, &text).is_err() {
+            continue;
+        }
+        let pst = Command::new(&exe).args(["probe-json", id, tmp.to_str().unwrap_or("")]).env("VCHECK_INNER", "1").stdout(Stdio::null()).stderr(Stdio::piped()).output();
+        let _ = std::fs::remove_file(&tmp);
+        let Ok(pout) = pst else { continue };
+        if !died(&pout.status) {
+            continue;
+        }
+        let Ok(scen) = serde_json::from_str::<serde_json::Value>(&text) else { continue };
+        let message = format!("a scenario derived from a violating one of VERIF_SEED {seed} while it was being minimised kills the process ({}) instead of returning a result", pout.status);
+        let file = serde_json::json!({
+            "property": id, "harness_version": core::HARNESS_VERSION, "verif_seed": seed, "scenario_index": 0, "variant": 0, "minimised": false,
+            "violation": {"class": "ProcessAborted", "message": message}, "full_digest": "", "scenario": scen, "log": [],
+        });
+        let rdir = core::out_dir().join("replays").join(id);
+        let _ = std::fs::create_dir_all(&rdir);
+        let path = rdir.join(format!("{id}-seed{seed}-shrunk-abort.json"));
+        if std::fs::write(&path, serde_json::to_string_pretty(&file).unwrap()).is_err() {
             return 2;
         }
         println!("violation class=ProcessAborted : {message}");
